@@ -114,9 +114,13 @@ func WriteHexInt(w network.Writer, n int) error {
 	return err
 }
 
+// maxLeadingHexZeros bounds the zero padding accepted in front of a hex number.
+const maxLeadingHexZeros = 64
+
 func ReadHexInt(r network.Reader) (int, error) {
 	n := 0
 	i := 0
+	zeros := 0
 	var k int
 	for {
 		buf, err := r.Peek(1)
@@ -137,6 +141,12 @@ func ReadHexInt(r network.Reader) (int, error) {
 				return -1, errEmptyHexNum
 			}
 			return n, nil
+		}
+		if k == 0 && n == 0 && i > 0 && zeros < maxLeadingHexZeros {
+			// a further leading zero ("%016x"-style padding) does not make the number any larger
+			zeros++
+			r.Skip(1)
+			continue
 		}
 		if i >= maxHexIntChars {
 			r.Skip(1)
